@@ -604,6 +604,10 @@ func (r *Reader) refsForIndexed(oid []byte) (*Iterator, error) {
 	if err != nil {
 		return nil, err
 	}
+	if it == nil {
+		// Beyond the last entry of the object index.
+		return &Iterator{&emptyIterator{}}, nil
+	}
 
 	got := objRecord{}
 	ok, err := it.Next(&got)
